@@ -96,6 +96,9 @@ func (e *JSchemaError) SetIncorrectUserType(s string) {
 func (e *JSchemaError) SetFile(file *fs.File) {
 	e.file = file
 	e.prepared = false // the length and the newline symbol are those of the previous file
+	if e.hasIndex {
+		e.countLineAndColumn() // the position is a position in the new text now
+	}
 }
 
 func (e *JSchemaError) SetMessage(message string) {
